@@ -36,13 +36,6 @@ type forExpander struct {
 	// instruction, FOR or END line and are held back until it is seen
 	heldLabels []string
 
-	// a block put out earlier in this pass holds blocks that the next pass
-	// expands
-	moreToExpand bool
-	// the block being read is put out unexpanded: its count uses a name that
-	// only the next pass can know
-	forDeferred bool
-
 	symbols map[string][]token
 
 	// values of symbols resolved for the FOR counts seen so far
@@ -313,18 +306,9 @@ func forFor(f *forExpander) forStateFn {
 	f.exprBuf = expr
 
 	val, err := expandAndEvaluate(f.exprBuf, f.symbols, f.resolved)
-	f.forDeferred = false
 	if err != nil {
-		if f.moreToExpand && f.hasUnknownName(f.exprBuf, make(map[string]bool)) {
-			// the count uses a name that is not defined yet, and blocks
-			// put out earlier in this pass still hold unexpanded blocks,
-			// whose bodies may define it: leave this block for the next pass
-			f.forDeferred = true
-			val = 0
-		} else {
-			f.tokens <- token{tokError, fmt.Sprintf("%s", err)}
-			return nil
-		}
+		f.tokens <- token{tokError, fmt.Sprintf("%s", err)}
+		return nil
 	}
 
 	if len(f.labelBuf) > 0 {
@@ -348,22 +332,6 @@ func forFor(f *forExpander) forStateFn {
 	f.labelBuf = make([]string, 0)
 
 	return forInnerLine
-}
-
-// hasUnknownName reports whether expr, or the value of a symbol it can reach,
-// holds a name that is not a symbol
-func (f *forExpander) hasUnknownName(expr []token, seen map[string]bool) bool {
-	for _, tok := range expr {
-		if tok.typ != tokText || seen[tok.val] {
-			continue
-		}
-		seen[tok.val] = true
-		value, ok := f.symbols[tok.val]
-		if !ok || f.hasUnknownName(value, seen) {
-			return true
-		}
-	}
-	return false
 }
 
 // text: forInnerConsumeLabels
@@ -492,29 +460,6 @@ func forRof(f *forExpander) forStateFn {
 		f.next()
 	}
 
-	if f.forDeferred {
-		// put the block out as it was read; the next pass expands it
-		f.writeHeldLabels()
-		for _, label := range f.forLineLabels {
-			f.tokens <- token{tokText, label}
-		}
-		if f.forCountLabel != "" {
-			f.tokens <- token{tokText, f.forCountLabel}
-		}
-		f.tokens <- token{tokText, "for"}
-		for _, tok := range f.exprBuf {
-			f.tokens <- tok
-		}
-		f.tokens <- token{typ: tokNewline}
-		for _, tok := range f.forContent {
-			f.tokens <- tok
-		}
-		f.tokens <- token{tokText, "rof"}
-		f.tokens <- token{typ: tokNewline}
-		f.moreToExpand = true
-		return forLine
-	}
-
 	if f.forCount >= 1 {
 		f.recordBodyEqus()
 	}
@@ -535,10 +480,6 @@ func forRof(f *forExpander) forStateFn {
 				if tok.val == f.forCountLabel {
 					f.tokens <- token{tokNumber, fmt.Sprintf("%d", i)}
 				} else {
-					if f.forCount >= 1 && strings.ToLower(tok.val) == "for" {
-						// a nested block: the next pass expands it
-						f.moreToExpand = true
-					}
 					f.tokens <- tok
 				}
 			} else {
@@ -558,50 +499,167 @@ func forRof(f *forExpander) forStateFn {
 	return forLine
 }
 
-// recordBodyEqus records the EQU lines that the block being expanded emits at
-// the outermost level (not those inside nested blocks, which a later pass
-// expands), as forEquLine does for the lines outside blocks, so that the
-// counts of the FOR blocks that follow can use them
+// recordBodyEqus records the EQU lines that the block being expanded will
+// emit, as forEquLine does for the lines outside blocks, so that the counts of
+// the FOR blocks that follow can use them. Definitions inside nested blocks
+// only come to the surface in later passes, but a block that follows is
+// counted in this one: the nested blocks are therefore walked through here,
+// copy by copy, the way the later passes will expand them.
 func (f *forExpander) recordBodyEqus() {
+	hasNestedEqu := false
 	depth := 0
-	for start := 0; start < len(f.forContent); {
-		end := start
-		for end < len(f.forContent) && f.forContent[end].typ != tokNewline {
-			end++
-		}
-		line := f.forContent[start:end]
-		start = end + 1
-
-		labels := make([]string, 0)
-		for len(line) > 0 && line[0].typ == tokText && !line[0].IsPseudoOp() && !line[0].IsOp() {
-			labels = append(labels, line[0].val)
-			line = line[1:]
-		}
-		if len(line) == 0 || line[0].typ != tokText || !line[0].IsPseudoOp() {
+	for _, tok := range f.forContent {
+		if tok.typ != tokText {
 			continue
 		}
-		switch strings.ToLower(line[0].val) {
+		switch strings.ToLower(tok.val) {
 		case "for":
 			depth++
 		case "rof":
 			depth--
 		case "equ":
-			if depth != 0 {
+			if depth > 0 {
+				hasNestedEqu = true
+			}
+		}
+	}
+	subst := make(map[string]string)
+	for i := 1; i <= f.forCount; i++ {
+		if f.forCountLabel != "" {
+			subst[f.forCountLabel] = fmt.Sprintf("%d", i)
+		}
+		f.recordEqus(f.forContent, subst)
+		if !hasNestedEqu {
+			// what the first copy defines, the other copies only repeat
+			break
+		}
+	}
+}
+
+// recordEqus walks the lines of a block body in which the count variables in
+// subst have the given values
+func (f *forExpander) recordEqus(body []token, subst map[string]string) {
+	substituted := func(toks []token) []token {
+		out := make([]token, 0, len(toks))
+		for _, tok := range toks {
+			if tok.typ == tokComment {
 				continue
 			}
-			value := make([]token, 0)
-			for _, tok := range line[1:] {
-				if tok.typ == tokComment {
-					continue
+			if tok.typ == tokText {
+				if val, ok := subst[tok.val]; ok {
+					tok = token{tokNumber, val}
 				}
-				if tok.typ == tokText && tok.val == f.forCountLabel {
-					tok = token{tokNumber, "1"}
-				}
-				value = append(value, tok)
 			}
-			for _, label := range labels {
+			out = append(out, tok)
+		}
+		return out
+	}
+
+	// labels of the lines read so far that held nothing else
+	labels := make([]string, 0)
+	for start := 0; start < len(body); {
+		end := start
+		for end < len(body) && body[end].typ != tokNewline {
+			end++
+		}
+		line := body[start:end]
+		start = end + 1
+
+		for len(line) > 0 {
+			if line[0].typ == tokColon {
+				line = line[1:]
+			} else if line[0].typ == tokText && !line[0].IsPseudoOp() && !line[0].IsOp() {
+				labels = append(labels, line[0].val)
+				line = line[1:]
+			} else {
+				break
+			}
+		}
+		if len(line) == 0 || line[0].typ == tokComment {
+			// labels only: they belong to the next line
+			continue
+		}
+		lineLabels := labels
+		labels = make([]string, 0)
+		if line[0].typ != tokText || !line[0].IsPseudoOp() {
+			continue
+		}
+
+		switch strings.ToLower(line[0].val) {
+		case "equ":
+			value := substituted(line[1:])
+			for _, label := range lineLabels {
 				if _, ok := f.symbols[label]; !ok {
 					f.symbols[label] = value
+				}
+			}
+		case "for":
+			// the lines up to the ROF of this block
+			innerStart := start
+			depth := 0
+			innerEnd := -1
+			for pos := start; pos < len(body) && innerEnd < 0; {
+				lineEnd := pos
+				for lineEnd < len(body) && body[lineEnd].typ != tokNewline {
+					lineEnd++
+				}
+				for _, tok := range body[pos:lineEnd] {
+					if tok.typ == tokColon || (tok.typ == tokText && !tok.IsPseudoOp() && !tok.IsOp()) {
+						continue
+					}
+					if tok.typ == tokText && strings.ToLower(tok.val) == "for" {
+						depth++
+					} else if tok.typ == tokText && strings.ToLower(tok.val) == "rof" {
+						if depth == 0 {
+							innerEnd = pos
+						}
+						depth--
+					}
+					break
+				}
+				if innerEnd < 0 {
+					pos = lineEnd + 1
+				} else {
+					start = lineEnd + 1
+				}
+			}
+			if innerEnd < 0 {
+				// no ROF: the expansion will report it
+				return
+			}
+			inner := body[innerStart:innerEnd]
+
+			hasEqu := false
+			for _, tok := range inner {
+				if tok.typ == tokText && strings.ToLower(tok.val) == "equ" {
+					hasEqu = true
+					break
+				}
+			}
+			if !hasEqu {
+				continue
+			}
+			count, err := expandAndEvaluate(substituted(line[1:]), f.symbols, f.resolved)
+			if err != nil {
+				// not known yet; the pass that expands the block will tell
+				continue
+			}
+			counter := ""
+			if len(lineLabels) > 0 {
+				counter = lineLabels[len(lineLabels)-1]
+			}
+			saved, hadSaved := subst[counter]
+			for i := 1; i <= count; i++ {
+				if counter != "" {
+					subst[counter] = fmt.Sprintf("%d", i)
+				}
+				f.recordEqus(inner, subst)
+			}
+			if counter != "" {
+				if hadSaved {
+					subst[counter] = saved
+				} else {
+					delete(subst, counter)
 				}
 			}
 		}
